@@ -1,6 +1,7 @@
 #!/bin/sh
 # tools/seedtest.sh <patch.diff> <Cxx> [<Cyy> ...]  — apply a seeded change to /repo, run the given checks, undo it.
 # Prints one line per check: CAUGHT (exit 1 with a VIOLATION line) or MISSED (exit 0).
+if [ -z "$SEEDTEST_LOCKED" ]; then SEEDTEST_LOCKED=1 exec flock /tmp/repo-mut.lock env SEEDTEST_LOCKED=1 "$0" "$@"; fi
 patch="$(realpath "$1")"; shift
 cd /verif || exit 2
 if ! git -C /repo diff --quiet; then echo "refusing: /repo has uncommitted changes"; exit 2; fi
@@ -12,7 +13,7 @@ for id in "$@"; do
   v=$(echo "$out" | grep -c '^VIOLATION')
   if [ $rc -ne 0 ] && [ "$v" -gt 0 ]; then echo "CAUGHT $id: $(echo "$out" | grep '^VIOLATION' | head -1)"; else echo "MISSED $id (rc=$rc): $(echo "$out" | tail -1)"; fi
 done
-git -C /repo checkout -- .; python3 /verif/tools/rs2lean.py > /dev/null
+git -C /repo checkout -- .; python3 /verif/tools/rs2lean.py > /dev/null; python3 /verif/tools/rs2lean_fn.py > /dev/null
 # evidence files must describe runs on the unchanged tree: put the saved ones back
 for id in "$@"; do cp -f "/verif/.build/evidence_backup/$id.json" "evidence/$id.json" 2>/dev/null; done
 git -C /repo status --short | head -3
